@@ -23,6 +23,7 @@ package store
 //@   ensures by_multihash [C04]: err == nil && !blockstoreUseWholeCIDs && !(!storeIdentityCIDs && mhtype(c) == 0) ==> result0 == byMh(idx, mhof(c))
 
 //@ func Finalize
+//@   call[Header.WriteTo#0] assert a_constructed_header_is_finalized_the_way_the_verifier_expects [C05]: header.DataOffset >= 51 && header.IndexOffset >= header.DataOffset && dataSize >= 1 && header.IndexOffset + dataSize < 18446744073709551616 ==> laidout(arg0.DataOffset, arg0.DataSize, arg0.IndexOffset)
 //@   let _, werr := call[index.WriteTo#0]
 //@   let fi, ferr := call[InsertionIndex.Flatten#0]
 //@   call[InsertionIndex.Flatten#0] assert codec [C05]: arg1 == indexCodec && ref(arg0) == ref(idx)
